@@ -288,6 +288,30 @@ fn one_vector(cx: &mut Ctx, bits: &[bool], mode: u32, r: &mut Rng, to_coq: bool)
             let got = bulk_rank1_simd(bv.blocks(), &psin);
             let want: Vec<usize> = psin.iter().map(|&p| o.pre[p]).collect();
             if got != want { bad.push(format!("bulk_rank1_simd differs at {:?}", got.iter().zip(&want).position(|(a, b)| a != b))); }
+            // batches in which the order is not ascending, positions repeat, and the end of the vector (p = len, and p > len,
+            // which the kernels answer with the total) is NOT the last element of the batch: kernels that carry state from one
+            // position of a batch to the next must not depend on the batch's shape
+            let total = o.pre[n];
+            let pick = |i: usize| -> usize { if psin.is_empty() { 0 } else { psin[(i * 7 + 3) % psin.len()] } };
+            let batches: Vec<Vec<usize>> = vec![
+                psin.iter().rev().cloned().collect(),
+                vec![n, n],
+                vec![pick(0), n, pick(1)],
+                vec![n, 0, pick(2), n, n, pick(3), n + 1, pick(4), n + 64, 0],
+                (0..9).map(|i| if i % 3 == 1 { n } else { pick(i) }).collect(),
+                (0..17).map(|i| if i % 5 == 2 { n + i } else { pick(i + 9) }).collect(),
+            ];
+            for b in &batches {
+                let got = bulk_rank1_simd(bv.blocks(), b);
+                let want: Vec<usize> = b.iter().map(|&p| if p <= n { o.pre[p] } else { total }).collect();
+                if got != want && bad.len() < 3 { bad.push(format!("bulk_rank1_simd({:?}) = {:?}, the prefix counts are {:?}", &b[..b.len().min(10)], &got[..got.len().min(10)], &want[..want.len().min(10)])); }
+            }
+            if o.ones.len() >= 2 {
+                let m = o.ones.len();
+                let kb: Vec<usize> = vec![m - 1, 0, m / 2, m - 1, 0, 0, m / 3];
+                let gotk = bulk_select1_simd(bv.blocks(), &kb).ok();
+                if gotk != Some(kb.iter().map(|&k| o.ones[k]).collect::<Vec<_>>()) && bad.len() < 3 { bad.push(format!("bulk_select1_simd on the unsorted batch {:?}", kb)); }
+            }
             let ks: Vec<usize> = (0..o.ones.len().min(1200)).collect();
             let gotk = bulk_select1_simd(bv.blocks(), &ks).ok();
             if gotk != Some(ks.iter().map(|&k| o.ones[k]).collect::<Vec<_>>()) { bad.push("bulk_select1_simd".into()); }
